@@ -683,6 +683,9 @@ size_t derTBITDec(octet* val, size_t* len, const octet der[], size_t count,
 	// биты дополнения в несуществующем октете?
 	if (l < 1 || v[0] > 7 || v[0] != 0 && l == 1) 
 		return SIZE_MAX;
+	// ненулевые биты дополнения?
+	if (v[0] != 0 && (v[l - 1] & ((1 << v[0]) - 1)) != 0)
+		return SIZE_MAX;
 	// сохранить число битов дополнения (val может пересекаться с der)
 	pad = v[0];
 	// возвратить строку
@@ -715,6 +718,9 @@ size_t derTBITDec2(octet* val, const octet der[], size_t count, u32 tag,
 	// биты дополнения в несуществующем октете?
 	// длина не соответствует ожидаемой?
 	if (l < 1 || v[0] > 7 || v[0] != 0 && l == 1 || (l - 1) * 8 != len + v[0])
+		return SIZE_MAX;
+	// ненулевые биты дополнения?
+	if (v[0] != 0 && (v[l - 1] & ((1 << v[0]) - 1)) != 0)
 		return SIZE_MAX;
 	// возвратить строку
 	if (val)
